@@ -51,12 +51,14 @@ ASSUMPTIONS = [
     'counted, not judged; two DIFFERENT link keys are a violation',
 ]
 MIN_EVENTS = {
-    'quick': {'oracle_evals': 8000, 'pairings': 500, 'paired_both': 300, 'failed_both': 80, 'table_cells': 200,
-              'tamper_applied': 40, 'reconnect_checks': 40, 'wire_commit_checks': 300, 'authenticated_flag_checks': 500,
-              'provider_queries': 300},
-    'thorough': {'oracle_evals': 150000, 'pairings': 9000, 'paired_both': 5000, 'failed_both': 1500,
-                 'table_cells': 200, 'tamper_applied': 400, 'reconnect_checks': 800, 'wire_commit_checks': 5000,
-                 'authenticated_flag_checks': 9000, 'provider_queries': 5000},
+    'quick': {'oracle_evals': 30000, 'pairings': 1200, 'paired_both': 900, 'failed_both': 200, 'table_cells': 200,
+              'model_checks': 900, 'tamper_applied': 60, 'reconnect_checks': 150, 'wire_commit_checks': 900,
+              'spec_key_checks': 900, 'authenticated_flag_checks': 2500, 'provider_queries': 1000,
+              'passkey_bit_checks': 3000, 'numeric_value_checks': 80},
+    'thorough': {'oracle_evals': 600000, 'pairings': 25000, 'paired_both': 18000, 'failed_both': 4000,
+                 'table_cells': 200, 'model_checks': 18000, 'tamper_applied': 600, 'reconnect_checks': 3000,
+                 'wire_commit_checks': 18000, 'spec_key_checks': 18000, 'authenticated_flag_checks': 50000,
+                 'provider_queries': 20000, 'passkey_bit_checks': 60000, 'numeric_value_checks': 1500},
 }
 CASE_TIMEOUT = 180
 
@@ -102,7 +104,7 @@ def plan(tier, seed):
                     cases.append(_base('table', nxt(), io=[a, b], sc=[sc, sc], mitm=mitm,
                                        ikd=[7, 7], rkd=[7, 7]))
     # (2) sampled product
-    nmix = 1600 if tier == 'quick' else 60000
+    nmix = 1200 if tier == 'quick' else 30000
     rng = random.Random(S ^ 0xC13)
     neg_kinds = ['ok', 'ok', 'ok', 'ok', 'wrong', 'none', 'compare-no', 'confirm-no', 'accept-no']
     for i in range(nmix):
@@ -130,7 +132,10 @@ def plan(tier, seed):
             ikd=[kd(), kd()], rkd=[kd(), kd()], start=start, answers=ans,
             passkey=rng.choice(PASSKEY_BOUNDARY) if rng.random() < 0.35 else None,
             delay=rng.choice([0, 0, 1, 3, 6]), acl=rng.choice([27, 27, 69, 251]),
-            reconnect=(['same', 'swapped'] if rng.random() < 0.25 else [])))
+            reconnect=(['same', 'swapped'] if rng.random() < 0.25 else []),
+            tamper=({'pdu': rng.choice(['confirm', 'random', 'dhkey', 'pubkey']), 'role': rng.randrange(2),
+                     'nth': rng.choice([1, 1, 2, 7, 20]), 'byte': rng.randrange(16), 'bit': rng.randrange(8)}
+                    if rng.random() < 0.1 else None)))
     # (3a) negative answers, systematically per model
     model_io = {
         'pk-i-disp': (rs.DISPLAY_ONLY, rs.KEYBOARD_ONLY), 'pk-r-disp': (rs.KEYBOARD_ONLY, rs.DISPLAY_YES_NO),
@@ -1157,7 +1162,7 @@ def rs_selftest():
 
 
 LEVEL_TEXT = ('Two real bumble devices pair over the virtual LE link: all 5x5x{legacy,SC} IO-capability cells x 4 MITM request '
-              'patterns exhaustively, ~420 (quick) / ~9000 (thorough) sampled asymmetric configurations (SC/MITM/bonding per '
+              'patterns exhaustively, ~1200 (quick) / ~30000 (thorough) sampled asymmetric configurations (SC/MITM/bonding per '
               'side, four key-distribution masks, who starts, user answers, passkey boundary values, seeded order-preserving '
               'delays), every negative answer and every single-bit in-flight corruption of Confirm/Random/DHKey Check/Public '
               'Key per association model, reconnection in same and swapped roles after bonding, OOB and SMP over BR/EDR. '
